@@ -11,10 +11,10 @@ TECH = "Rocq theorem over an executable model + differential correspondence with
 # id -> (level text, level note)   ; absent => not_applicable with REASON
 CLAIMED = {
  "C01": (
-  "Coq theorems (coq/Properties/C01.v, 29 pinned, axiom-free, coqchk: Axioms <none>) over an executable pointer machine that mirrors add_bytes / remove_bytes / every "
+  "Coq theorems (coq/Properties/C01.v, 33 pinned, axiom-free, coqchk: Axioms <none>) over an executable pointer machine that mirrors add_bytes / remove_bytes / every "
   "resize_notification / every container operation line by line (memory as the whole allocation, pointer trees mirroring every Rust "
-  "Ptr type incl. UnsizedList's inner_exclusive / possible_mut_borrow / range). PROVED for EVERY enum-free shape - structs, lists of any "
-  "element type / prefix width, trailing RemainingBytes, lists and maps of unsized elements nested to any depth - every well-formed value, "
+  "Ptr type incl. UnsizedList's inner_exclusive / possible_mut_borrow / range). PROVED for EVERY shape of the universe (C01_every_shape) - structs, lists of any "
+  "element type / prefix width, trailing RemainingBytes, lists and maps of unsized elements, generated enums, nested to any depth - every well-formed value, "
   "every path and every finite history of List::insert_all / remove_range (push, insert, pop, remove, clear are instances) issued at ANY "
   "nesting depth through get_mut / get_exclusive on each list of unsized elements on the way: each operation succeeds exactly when Vec's "
   "does (index, range, length prefix, growth allowance), the notification broadcast fixes exactly the ancestors' unsized_size and offset "
@@ -26,20 +26,20 @@ CLAIMED = {
   "remove) refine the sorted-association-list model and keep the keys strictly ascending (C01_keyed_*); whole-value replacement "
   "(set_from_owned) refines assignment for every sub-value whose chain of first fields ends in a non-struct (C01_set_data_refines). "
   "All of it is folded into ONE history theorem, C01_full_run_refines (any interleaving of all these operations, with the keyed "
-  "operations' observations), and C01_keyed_views_stay_sorted. "
+  "operations' observations), and C01_keyed_views_stay_sorted. Generated enums: paths descend into the live variant (step SV), whole enum values are replaced by set_from_owned, and the generated setter set_<variant>(DefaultInit) refines assigning the variant's default value (C01_enum_switch_refines); C01_run_refines_with_switches is the history theorem with switches, C01_dispatcher_tie_switch its tie to the runner's dispatcher. "
   "C01_dispatcher_tie / _all_ops prove that the dispatcher the extracted runner executes returns what descent + operation return. The "
   "flat-shape theorems of the first round remain as the special case. UnsizedMap insert on an existing key, UnsizedString, non-default and "
-  "failing initializers and enums are tied by correspondence: 1.5k (quick) / 12k (thorough) generated histories on 25 Rust shapes (four with generated enums: variant switches, operations inside the live variant) nested to "
+  "failing initializers are tied by correspondence only; everything is ALSO tied by correspondence: 1.5k (quick) / 12k (thorough) generated histories on 25 Rust shapes (four with generated enums: variant switches, operations inside the live variant) nested to "
   "depth 3 run through the real ExclusiveWrapper API and the extracted machine (0 disagreements), judged against an independent "
   "plain-Vec/BTreeMap oracle in Python.",
   "PARTIAL (stated in Properties/C01.v): UnsizedString, "
   "non-default initializers and the failing-initializer paths (D16) are in the machine and the correspondence but have no refinement "
-  "theorem; enums are in the encode/parse universe (C04/C05) but neither in the operations harness nor in the refinement. Found and fixed D7 (stale inner pointer not "
+  "theorem. Found and fixed D7 (stale inner pointer not "
   "shifted), D18 (empty trailing RemainingBytes at full capacity: found while proving the flat pointer assertions) and D26 (a STALE "
   "recorded inner pointer took part in check_pointers and could be shifted out of the allocation: found while stating the general "
   "layout invariant); known finding D16 (failing initializer after the resize)."),
  "C02": (
-  "Coq theorems (coq/Properties/C02.v, axiom-free): for every enum-free shape (lists and maps of unsized elements at any depth included), "
+  "Coq theorems (coq/Properties/C02.v, axiom-free): for every shape (lists and maps of unsized elements and generated enums at any depth included), "
   "after ANY history of list operations at any nesting depth - failing operations included - the first data_len bytes are exactly "
   "encode(value) and data_len = byte_size(value) (C02_general_canonical_after_any_history, from the refinement invariant RepF); for "
   "ALL shapes canonical encodings have the announced size, are injective and are read back as the same value by any reader "
@@ -55,7 +55,7 @@ CLAIMED = {
   "add_bytes / remove_bytes / the notification broadcast (incl. the offset-table patches of lists of unsized elements) lands inside "
   "[0, capacity) or the step has outcome Fault (C03_*_stays_in_allocation); check_pointers only accepts trees whose every live address "
   "lies in the buffer's range, so an accessor swapped in from another buffer is reported at the latest by the drop-time check "
-  "(C03_swapped_accessor_detected). Every enum-free shape, list operations at any nesting depth, failures included: the outcome of a "
+  "(C03_swapped_accessor_detected). Every shape (enums included), list operations at any nesting depth, failures included: the outcome of a "
   "history is never Fault nor Panic and the pointer assertions hold in every reachable state (C03_general_no_fault_in_any_history, "
   "C03_general_pointer_assertions_hold); growth beyond the allocation is InvalidRealloc before any memmove. "
   "Tie: histories run on an mmap'ed allocation of exactly initial+10240 bytes flush against a PROT_NONE page (before or after) with "
@@ -65,7 +65,7 @@ CLAIMED = {
   "arithmetic realises those offsets is the correspondence plus guard pages. The full operation set incl. element-level operations of lists of "
   "unsized elements is covered by C03_all_ops_no_fault_in_any_history. Found and fixed D18 and D26."),
  "C06": (
-  "Coq theorems (coq/Properties/C06.v, axiom-free), every enum-free shape, list operations at any nesting depth: every failure - index, "
+  "Coq theorems (coq/Properties/C06.v, axiom-free), every shape (enums included), list operations at any nesting depth: every failure - index, "
   "range, length prefix, growth beyond the allowance, growth refused by the data access - is returned with the owned model's code before "
   "any write; the state reached by the descent still represents the same value with canonical bytes and exact length; histories with "
   "failures in them keep refining the owned model step by step (C06_general_failure_is_clean, C06_general_continue_after_failures; "
